@@ -155,6 +155,8 @@ def gen_config(d: Draw, idx):
     if d.chance(1, 3):
         cfg['slices'] = d.pick([10, 40, 55])
     prev = 0.0
+    stack_style = len(fracs) >= 2 and d.chance(1, 5)     # a core given by radius, the layers above stacked by thickness
+    cfg['_stack_style'] = stack_style
     for i, f in enumerate(fracs):
         lname = 'L%d' % i
         depth_rank = i / max(1, len(fracs) - 1)
@@ -163,6 +165,8 @@ def gen_config(d: Draw, idx):
         dens = {'iron': d.pick([8000.0, 12000.0]), 'rock': d.pick([3300.0, 5000.0]), 'ice': d.pick([950.0, 1300.0])}[ltype]
         layer[d.pick(['density', 'density', 'density_bulk'])] = dens
         how = d.weighted([('radius', 4), ('thickness', 1), ('both', 1)])
+        if stack_style:
+            how = 'radius' if i == 0 else 'thickness'
         if how in ('radius', 'both'):
             layer['radius'] = R * f
         if how in ('thickness', 'both'):
@@ -199,7 +203,7 @@ def gen_plan(seed, tier):
         elif kind == 'derive':
             parent = d.below(n_worlds)
             nc_kind = d.weighted([('empty', 4), ('same_name', 2), ('new_name', 2), ('flag', 2), ('slices', 1), ('tides', 1),
-                                  ('tides_nested', 1), ('earlier_name', 1), ('layer_geometry', 1)])
+                                  ('tides_nested', 1), ('earlier_name', 1), ('layer_geometry', 1), ('move_core', 2)])
             nn_kind = d.weighted([('none', 5), ('parent_name', 2), ('parent_config_name', 1), ('fresh', 2)])
             fresh += 1
             ops.append({'op': 'derive', 'parent': parent, 'new_config': nc_kind, 'new_name': nn_kind, 'tag': fresh,
@@ -295,6 +299,7 @@ class WorldChainEngine(EngineBase):
         trace = []
         harness_errors = []
         worlds = []       # (world, snapshot, meta)
+        stack_info = {}   # id(world) -> description of a world whose upper layers are stacked by thickness
         inputs = []       # (dict object handed to a builder, deep copy taken before the call, description)
         max_lines = 0
 
@@ -335,6 +340,8 @@ class WorldChainEngine(EngineBase):
                 if op['op'] == 'derive':
                     if op['new_config'] == 'earlier_name':
                         op = dict(op, _earlier_name=worlds[op['value'] % len(worlds)][0].name)
+                    if op['new_config'] == 'move_core':
+                        op = dict(op, _stack_info=stack_info.get(id(pw)))
                     nc = self._new_config(op, pw)
                     inputs.append((nc, copy.deepcopy(nc), 'new_config handed to build_from_world at step %d' % i))
                     call = lambda: t['build_from_world'](pw, nc, new_name)
@@ -375,6 +382,13 @@ class WorldChainEngine(EngineBase):
                      op=op['op'], exception=type(e).__name__)
                 break
             trace.append('%2d %s -> %s (%s)' % (i, label, new_world.name, type(new_world).__name__))
+            if op['op'] == 'build_cfg' and op['cfg'].get('_stack_style') and hasattr(new_world, 'layers'):
+                ls = list(new_world)
+                stack_info[id(new_world)] = {'core_name': ls[0].name, 'core_radius': ls[0].radius,
+                                             'upper_thickness_sum': sum(L.thickness for L in ls[1:])}
+            elif op['op'] == 'derive' and op.get('new_config') in ('empty', 'same_name', 'new_name', 'flag', 'tides', 'tides_nested', 'earlier_name') \
+                    and id(parent[0]) in stack_info:
+                stack_info[id(new_world)] = stack_info[id(parent[0])]      # the description is inherited unchanged
             meta = '%s#%d' % (new_world.name, len(worlds))
             # ---- invariants of the new world ----
             judge_geometry = op.get('new_config') != 'layer_geometry'
@@ -449,6 +463,15 @@ class WorldChainEngine(EngineBase):
             return {'tides_on': bool(op['value'] % 2)}
         if k == 'tides_nested':
             return {'tides': {'eccentricity_truncation_lvl': [2, 4, 6, 8][op['value'] % 4]}, 'tides_on': True}
+        if k == 'move_core':
+            # only meaningful for a world whose upper layers are stacked by thickness: a new core radius and the matching
+            # world radius describe a consistent, fully determined geometry (core, then the same thicknesses on top)
+            info = op.get('_stack_info')
+            if info:
+                f = [0.8, 1.1, 1.25, 0.95][op['value'] % 4]
+                new_core = info['core_radius'] * f
+                return {'radius': new_core + info['upper_thickness_sum'], 'layers': {info['core_name']: {'radius': new_core}}}
+            return {}
         if k == 'layer_geometry':
             # overrides one geometric key of one layer.  The inherited counterpart (thickness vs radius) may then contradict
             # it, so nothing is demanded of the CHILD's geometry; the clause under test is that the inputs are not mutated.
